@@ -131,9 +131,14 @@ def r2_visitors(ctx):
               'records the encoding exactly when unique (32 valuations)',
               f'visitor differs from the rule for (tok,uniq,seen,nofilter,incat) = {bad[:3]}' + (f'; extra conditions {sorted(unknown)}' if unknown else ''))
     init = ctx.prog.func(f'{N.DOCUMENT}.TokensTraversal.__init__')
-    stores = {src(n.targets[0]): src(n.value) for n in walk_local(init.node) if isinstance(n, ast.Assign)}
-    ok = stores.get('self.tokens') == '[]' and stores.get('self.seen_encodings') in ('[]', 'set()') \
-        and stores.get('self.non_repeated') == init.params[1] and init.params[2] in (stores.get('self.filter_by_categories') or '')
+    table = F.store_table(init)
+    stores = {k: sorted({src(v) for _, v, _ in rows}) for k, rows in table.items()}
+    fp = init.params[2]
+    # the filter: the caller's list whenever one is given (a default only when it is None)
+    okf = any(src(v) == fp for _, v, _ in table.get('self.filter_by_categories', [])) and \
+        all(src(v) == fp or F.forced(c, f'{fp} is None', True) for c, v, _ in table.get('self.filter_by_categories', []))
+    ok = stores.get('self.tokens') == ['[]'] and stores.get('self.seen_encodings') in (['[]'], ['set()']) \
+        and stores.get('self.non_repeated') == [init.params[1]] and okf
     ctx.check(ok, 'R2', init.loc, init.qualname, 'tokens-visitor-state', 'a new traversal starts empty and stores its flag and filter',
               f'TokensTraversal.__init__ stores {stores}')
     mv = ctx.prog.func(f'{N.DOCUMENT}.MetacommentsTraversal.visit')
@@ -267,9 +272,9 @@ def r5_monophony(ctx):
     val = F.fold(ctx, rets[0][1], f)
     fm = G._formula(val)
     kern = f"1 == len(spine_types({d}, headers=['**kern']))"
-    chord = f'0 == len({d}.get_all_tokens(filter_by_categories=[TokenCategory.CHORD]))'
-    note = f'0 < len({d}.get_all_tokens(filter_by_categories=[TokenCategory.NOTE_REST]))'
-    eq, cex, unknown = G.compare(fm, lambda v: v['k'] and v['c'] and v['n'], {kern: 'k', chord: 'c', note: 'n'})
+    chord = f'nonempty({d}.get_all_tokens(filter_by_categories=[TokenCategory.CHORD]))'
+    note = f'nonempty({d}.get_all_tokens(filter_by_categories=[TokenCategory.NOTE_REST]))'
+    eq, cex, unknown = G.compare(fm, lambda v: v['k'] and not v['c'] and v['n'], {kern: 'k', chord: 'c', note: 'n'})
     ctx.check(eq and not unknown, 'R5', f.loc, f.qualname, 'monophony-truth-table',
               'is_monophonic = exactly one **kern spine and no CHORD token and at least one NOTE_REST token',
               f'is_monophonic is `{G.show(fm)[:200]}`' + (f'; differs at {cex}' if cex else ''))
